@@ -41,7 +41,7 @@ def generate(rng):
     dtype = rng.choice([None, "float32", "float64", "float64"])
     p0 = gen_primary(rng, "p0", kinds=STOCK_KINDS + ["TapePrimary", "TapePrimary"], dtypes=(dtype,), dt=dt)
     prims = [p0]
-    steps = rng.nsteps([2, 3, 4, 5, 7, 10])
+    steps = rng.nsteps([1, 2, 3, 4, 5, 7, 10])
     d = gen_derivative(rng, "d0", p0, kinds=OPTION_KINDS + ["EuropeanForwardStartOption", "VarianceSwap"], steps=steps)
     if rng.chance(0.35):
         d["clauses"] = gen_clauses(rng, rng.randint(1, 2))  # the hedger must subtract payoff(), not payoff_fn()
